@@ -22,6 +22,14 @@ Theorem C12_perm : forall c ms' e prof filt,
 Proof. intros. split; [apply render_perm|apply plan_desired_perm]; assumption. Qed.
 Print Assumptions C12_perm.
 
+(* ... and the whole pipeline including Manifest::load: for a manifest that validate_manifest accepts,
+   every permutation is accepted too and plans identically *)
+Theorem C12_perm_load : forall c ms' e prof filt,
+  Permutation (c_modules c) ms' -> validate_manifest c = None ->
+  load_render (with_modules c ms') e prof filt = load_render c e prof filt.
+Proof. exact load_render_perm. Qed.
+Print Assumptions C12_perm_load.
+
 (* Conflict iff: when every reached module tree is valid (no [Fail] step), rendering fails with
    E_DESIRED_STATE_CONFLICT exactly when two inserts address the same (target, path) with different
    bytes.  The right-hand side is symmetric in the two inserts and does not mention their order. *)
